@@ -1,7 +1,7 @@
 (* Proofs about Model/BitVecModel.v: every opcode arm of the dispatch layer denotes the EVM
    result (Base/Word.v) for all operand values, valuations and operand representations. *)
-From Coq Require Import ZArith Lia ZifyBool List Bool.
-From HV Require Import Base.Word Base.SmtBV Gen.GenBitvecGuards Model.BitVecModel.
+From Coq Require Import ZArith Zpow_facts Lia ZifyBool List Bool.
+From HV Require Import Base.Word Base.SmtBV Model.PyInt Gen.GenBitvecGuards Model.BitVecModel.
 Import ListNotations.
 Open Scope Z_scope.
 
@@ -46,7 +46,7 @@ Section WithEnv.
     den (bv_add n a b) = (den a + den b) mod 2 ^ n.
   Proof.
     intros Hn Ha Hb.
-    destruct a as [x|t], b as [y|u]; cbn [bv_add]; try (apply mk_int_den; assumption);
+    destruct a as [x|t], b as [y|u]; cbn [bv_add]; unfold r_add_1; try (apply mk_int_den; assumption);
       cbn [bv_den eval binop_eval]; rewrite !z3_of_den by assumption; reflexivity.
   Qed.
 
@@ -54,7 +54,7 @@ Section WithEnv.
     den (bv_sub n a b) = (den a - den b) mod 2 ^ n.
   Proof.
     intros Hn Ha Hb.
-    destruct a as [x|t], b as [y|u]; cbn [bv_sub]; try (apply mk_int_den; assumption);
+    destruct a as [x|t], b as [y|u]; cbn [bv_sub]; unfold r_sub_1; try (apply mk_int_den; assumption);
       cbn [bv_den eval binop_eval]; rewrite !z3_of_den by assumption; reflexivity.
   Qed.
 
@@ -229,11 +229,11 @@ Section WithEnv.
   Qed.
 
   Lemma bv_and_den n a b : 0 <= n -> wfn n a -> wfn n b -> den (bv_and n a b) = Z.land (den a) (den b).
-  Proof. intros; apply bv_bitop_den; auto using mask_land. Qed.
+  Proof. intros; apply (bv_bitop_den And (fun x y => r_bitwise_and_1 y x)); auto; intros; unfold r_bitwise_and_1; first [apply mask_land|reflexivity]. Qed.
   Lemma bv_or_den n a b : 0 <= n -> wfn n a -> wfn n b -> den (bv_or n a b) = Z.lor (den a) (den b).
-  Proof. intros; apply bv_bitop_den; auto using mask_lor. Qed.
+  Proof. intros; apply (bv_bitop_den Or (fun x y => r_bitwise_or_1 y x)); auto; intros; unfold r_bitwise_or_1; first [apply mask_lor|reflexivity]. Qed.
   Lemma bv_xor_den n a b : 0 <= n -> wfn n a -> wfn n b -> den (bv_xor n a b) = Z.lxor (den a) (den b).
-  Proof. intros; apply bv_bitop_den; auto using mask_lxor. Qed.
+  Proof. intros; apply (bv_bitop_den Xor (fun x y => r_bitwise_xor_1 y x)); auto; intros; unfold r_bitwise_xor_1; first [apply mask_lxor|reflexivity]. Qed.
 
   Lemma mod_shift P z k : 0 < P -> 0 <= z + k * P < P -> z mod P = z + k * P.
   Proof. intros HP H. symmetry. apply (Z.mod_unique z P (- k)); lia. Qed.
@@ -243,8 +243,12 @@ Section WithEnv.
     intros Hn Ha. pose proof (pow2_pos n Hn) as HP.
     destruct a as [x|t]; cbn [bv_not bv_den eval mk_int]; [|reflexivity].
     unfold bvwf in Ha; cbn [bv_den] in Ha.
-    fold (py_mask n (Z.lnot x)). rewrite !mask_mod, Z.mod_mod by lia.
-    unfold Z.lnot. rewrite (mod_shift (2 ^ n) (Z.pred (- x)) 1); lia.
+    unfold r_bitwise_not_1. rewrite Z.shiftl_1_l.
+    assert (E : Z.land (- x - 1) (2 ^ n - 1) = (- x - 1) mod 2 ^ n).
+    { rewrite <- Z.land_ones by lia. f_equal. rewrite Z.ones_equiv. lia. }
+    rewrite E. fold (py_mask n ((- x - 1) mod 2 ^ n)).
+    rewrite mask_mod, Z.mod_mod by lia.
+    rewrite (mod_shift (2 ^ n) (- x - 1) 1); lia.
   Qed.
 
   (* ---------------------------------------------------------------- shifts *)
@@ -264,7 +268,7 @@ Section WithEnv.
       { destruct (Z.ltb_spec k n); [lia|]. rewrite mk_int_den by lia. apply Z.mod_0_l; lia. }
       destruct (Z.ltb_spec k n); [|lia].
       destruct a as [x|t]; cbn [bv_den eval binop_eval].
-      + rewrite mk_int_den by lia. rewrite Z.shiftl_mul_pow2 by lia. reflexivity.
+      + unfold r_lshl_1. rewrite mk_int_den by lia. rewrite Z.shiftl_mul_pow2 by lia. reflexivity.
       + unfold bvshl, bvmod. rewrite (Z.mod_small k) by lia.
         destruct (Z.ltb_spec k n); [reflexivity|lia].
     - cbn [eval binop_eval]. rewrite z3_of_den by assumption. reflexivity.
@@ -302,7 +306,7 @@ Section WithEnv.
       destruct (Z.eqb_spec k 0) as [->|Hk0].
       { destruct (Z.ltb_spec 0 n); [|lia]. rewrite Z.pow_0_r, Z.div_1_r; auto. }
       destruct a as [x|t]; cbn [bv_den eval binop_eval] in *.
-      + rewrite mk_int_den, py_shr_div by lia.
+      + unfold r_lshr_1. rewrite mk_int_den, py_shr_div by lia.
         rewrite Z.mod_small by (apply div_pow2_range; lia).
         destruct (Z.ltb_spec k n); [reflexivity|]. apply (div_pow2_small x k n); lia.
       + destruct (Z.leb_spec n k) as [Hge|Hlt].
@@ -488,7 +492,7 @@ Section WithEnv.
       - unfold bvwf; cbn [bv_den]. pose proof (n_lt_pow2 n ltac:(lia)). lia. }
     unfold bvwf in Ha, Hb.
     destruct a as [x|t], b as [y|u]; cbn [bv_mul].
-    - apply mk_int_den; lia.
+    - unfold r_mul_1. apply mk_int_den; lia.
     - cbn [bv_den] in Ha. unfold g_mul_1, g_mul_2.
       destruct (Z.eqb_spec x 0) as [->|]; [cbn [bv_den]; rewrite Z.mul_0_l, Z.mod_0_l; lia|].
       destruct (Z.eqb_spec x 1) as [->|]; [rewrite Z.mul_1_l, Z.mod_small; auto|].
@@ -518,22 +522,28 @@ Section WithEnv.
     apply Z.le_lt_trans with x; [|lia]. apply Z.div_le_upper_bound; [lia|]. nia.
   Qed.
 
+  Lemma py_arith_ok n d v : existsb (Z.eqb 0) d = false -> py_arith n d v = Ok (mk_int n v).
+  Proof. intros H. unfold py_arith. rewrite H. reflexivity. Qed.
+
   Lemma bv_div_den n a b : 0 < n -> wfn n a -> wfn n b ->
-    den (bv_div n true a b) = if den b =? 0 then 0 else den a / den b.
+    exists r, bv_div n true a b = Ok r /\ den r = if den b =? 0 then 0 else den a / den b.
   Proof.
     intros Hn Ha Hb. pose proof (pow2_pos n ltac:(lia)) as HP.
     assert (Hslow : den (Sv (TUF Fudiv n (z3_of n a) (z3_of n b))) = if den b =? 0 then 0 else den a / den b).
     { cbn [bv_den eval uf_eval]. rewrite !z3_of_den by assumption. unfold bvudiv.
       destruct (den b =? 0); reflexivity. }
-    unfold bv_div. destruct b as [y|u]; [|exact Hslow].
+    unfold bv_div. destruct b as [y|u]; [|eexists; split; [reflexivity|exact Hslow]].
     unfold bvwf in Hb; cbn [bv_den] in Hb. unfold g_div_1, g_div_2.
-    destruct (Z.eqb_spec y 0) as [->|Hy0]; [reflexivity|].
-    destruct (Z.eqb_spec y 1) as [->|Hy1]; [cbn [bv_den]; rewrite Z.div_1_r; reflexivity|].
-    cbn [bv_den]. destruct (Z.eqb_spec y 0); [lia|].
+    destruct (Z.eqb_spec y 0) as [->|Hy0]; [eexists; split; reflexivity|].
+    destruct (Z.eqb_spec y 1) as [->|Hy1];
+      [eexists; split; [reflexivity|]; cbn [bv_den]; rewrite Z.div_1_r; reflexivity|].
     destruct a as [x|t].
-    - unfold bvwf in Ha; cbn [bv_den] in *. rewrite mk_int_den by lia.
+    - unfold rd_div_1, r_div_1. rewrite py_arith_ok by (cbn [existsb]; destruct (Z.eqb_spec 0 y); [lia|reflexivity]).
+      eexists; split; [reflexivity|].
+      unfold bvwf in Ha; cbn [bv_den] in *. destruct (Z.eqb_spec y 0); [lia|]. rewrite mk_int_den by lia.
       apply Z.mod_small. apply div_range; lia.
-    - destruct (is_power_of_two y) eqn:Hp.
+    - eexists; split; [reflexivity|]. cbn [bv_den]. destruct (Z.eqb_spec y 0); [lia|].
+      destruct (is_power_of_two y) eqn:Hp.
       + destruct (pow2_char y Hp) as [Hy Hy2]. rewrite bit_length_log2 by assumption.
         destruct (log2_shift_wf n y Hn ltac:(lia)) as [-> Hl].
         rewrite bv_lshr_den; try assumption.
@@ -543,22 +553,25 @@ Section WithEnv.
   Qed.
 
   Lemma bv_mod_den n a b : 0 < n -> wfn n a -> wfn n b ->
-    den (bv_mod n true a b) = if den b =? 0 then 0 else den a mod den b.
+    exists r, bv_mod n true a b = Ok r /\ den r = if den b =? 0 then 0 else den a mod den b.
   Proof.
     intros Hn Ha Hb. pose proof (pow2_pos n ltac:(lia)) as HP.
     assert (Hslow : den (Sv (TUF Furem n (z3_of n a) (z3_of n b))) = if den b =? 0 then 0 else den a mod den b).
     { cbn [bv_den eval uf_eval]. rewrite !z3_of_den by assumption. unfold bvurem.
       destruct (den b =? 0); reflexivity. }
-    unfold bv_mod. destruct b as [y|u]; [|exact Hslow].
+    unfold bv_mod. destruct b as [y|u]; [|eexists; split; [reflexivity|exact Hslow]].
     unfold bvwf in Hb; cbn [bv_den] in Hb. unfold g_mod_1, g_mod_2.
-    destruct (Z.eqb_spec y 0) as [->|Hy0]; [reflexivity|].
+    destruct (Z.eqb_spec y 0) as [->|Hy0]; [eexists; split; reflexivity|].
     destruct (Z.eqb_spec y 1) as [->|Hy1].
-    { rewrite mk_int_den by lia. cbn [bv_den]. rewrite Z.mod_1_r, Z.mod_0_l by lia. reflexivity. }
-    cbn [bv_den]. destruct (Z.eqb_spec y 0); [lia|].
+    { eexists; split; [reflexivity|]. rewrite mk_int_den by lia. cbn [bv_den].
+      rewrite Z.mod_1_r, Z.mod_0_l by lia. reflexivity. }
     destruct a as [x|t].
-    - unfold bvwf in Ha; cbn [bv_den] in *. rewrite mk_int_den by lia.
+    - unfold rd_mod_1, r_mod_1. rewrite py_arith_ok by (cbn [existsb]; destruct (Z.eqb_spec 0 y); [lia|reflexivity]).
+      eexists; split; [reflexivity|].
+      unfold bvwf in Ha; cbn [bv_den] in *. destruct (Z.eqb_spec y 0); [lia|]. rewrite mk_int_den by lia.
       apply Z.mod_small. pose proof (Z.mod_pos_bound x y ltac:(lia)). lia.
-    - destruct (is_power_of_two y) eqn:Hp.
+    - eexists; split; [reflexivity|]. cbn [bv_den]. destruct (Z.eqb_spec y 0); [lia|].
+      destruct (is_power_of_two y) eqn:Hp.
       + destruct (pow2_char y Hp) as [Hy Hy2]. rewrite bit_length_log2 by assumption.
         cbv zeta. cbn [bv_den eval]. unfold bvzext, bvextract.
         rewrite Z.pow_0_r, Z.div_1_r. replace (Z.log2 y - 1 - 0 + 1) with (Z.log2 y) by lia.
@@ -566,10 +579,10 @@ Section WithEnv.
       + rewrite Hslow. cbn [bv_den]. destruct (Z.eqb_spec y 0); [lia|reflexivity].
   Qed.
 
-  Lemma bv_mod_wf n a b : 0 < n -> wfn n a -> wfn n b -> wfn n (bv_mod n true a b).
+  Lemma mod_result_wf n a b r : 0 < n -> wfn n a -> wfn n b ->
+    den r = (if den b =? 0 then 0 else den a mod den b) -> wfn n r.
   Proof.
-    intros Hn Ha Hb. unfold bvwf. rewrite bv_mod_den by assumption.
-    unfold bvwf in *. destruct (Z.eqb_spec (den b) 0); [lia|].
+    intros Hn Ha Hb D. unfold bvwf in *. rewrite D. destruct (Z.eqb_spec (den b) 0); [lia|].
     pose proof (Z.mod_pos_bound (den a) (den b) ltac:(lia)). lia.
   Qed.
 
@@ -587,15 +600,17 @@ Section WithEnv.
   Lemma run_div sebc a b : wf ev eb a -> wf ev eb b ->
     exists r, run2 sebc DIV a b = Ok r /\ dn r = evm_div (dn a) (dn b).
   Proof.
-    intros Ha Hb. eexists; split; [reflexivity|]. cbn [denote].
-    rewrite bv_div_den by side. rewrite !popi_den. reflexivity.
+    intros Ha Hb. cbn [run2].
+    destruct (bv_div_den 256 (popi a) (popi b)) as [r [E D]]; try side.
+    rewrite E. eexists; split; [reflexivity|]. cbn [denote]. rewrite D, !popi_den. reflexivity.
   Qed.
 
   Lemma run_mod sebc a b : wf ev eb a -> wf ev eb b ->
     exists r, run2 sebc MOD a b = Ok r /\ dn r = evm_mod (dn a) (dn b).
   Proof.
-    intros Ha Hb. eexists; split; [reflexivity|]. cbn [denote].
-    rewrite bv_mod_den by side. rewrite !popi_den. reflexivity.
+    intros Ha Hb. cbn [run2].
+    destruct (bv_mod_den 256 (popi a) (popi b)) as [r [E D]]; try side.
+    rewrite E. eexists; split; [reflexivity|]. cbn [denote]. rewrite D, !popi_den. reflexivity.
   Qed.
 
   Lemma run_lt sebc a b : wf ev eb a -> wf ev eb b ->
@@ -687,11 +702,11 @@ Section WithEnv.
     rewrite bv_xor_den by side. rewrite !popi_den. reflexivity.
   Qed.
 
-  Lemma run_not_bv x : wfn 256 x ->
-    exists r, run1 NOT (VBV x) = Ok r /\ dn r = evm_not (den x).
+  Lemma run_not a : wf ev eb a ->
+    exists r, run1 NOT a = Ok r /\ dn r = evm_not (dn a).
   Proof.
-    intros Hx. eexists; split; [reflexivity|]. cbn [denote].
-    rewrite bv_not_den by side. reflexivity.
+    intros Ha. eexists; split; [reflexivity|]. cbn [denote].
+    rewrite bv_not_den by side. rewrite popi_den. reflexivity.
   Qed.
 
   Lemma run_shl sebc a b : wf ev eb a -> wf ev eb b ->
@@ -910,8 +925,32 @@ Section WithEnv.
       rewrite Nat2Z.inj_succ, Z.pow_succ_r by lia. f_equal; ring.
   Qed.
 
+  Lemma py_pow3_loop_spec p : forall base acc m, 0 < m ->
+    py_pow3_loop base acc p m = (acc * base ^ Z.pos p) mod m.
+  Proof.
+    induction p as [q IH|q IH|]; intros base acc m Hm; cbn [py_pow3_loop].
+    - rewrite IH by assumption.
+      replace (acc * base ^ Z.pos q~1) with ((acc * base) * (base * base) ^ Z.pos q).
+      + apply mul_mod_congr; [assumption|apply Z.mod_mod; lia|].
+        symmetry. apply Zpow_facts.Zpower_mod. lia.
+      + rewrite Pos2Z.inj_xI, Z.pow_add_r, Z.pow_1_r, Z.pow_mul_r, Z.pow_2_r by lia. ring.
+    - rewrite IH by assumption.
+      replace (acc * base ^ Z.pos q~0) with (acc * (base * base) ^ Z.pos q).
+      + apply mul_mod_congr; [assumption|reflexivity|].
+        symmetry. apply Zpow_facts.Zpower_mod. lia.
+      + rewrite Pos2Z.inj_xO, Z.pow_mul_r, Z.pow_2_r by lia. reflexivity.
+    - rewrite Z.pow_1_r. reflexivity.
+  Qed.
+
+  Lemma py_pow3_spec a e m : 0 < m -> 0 <= e -> py_pow3 a e m = (a ^ e) mod m.
+  Proof.
+    intros Hm He. destruct e as [|p|p]; cbn [py_pow3]; [reflexivity| |lia].
+    rewrite py_pow3_loop_spec by assumption. rewrite Z.mul_1_l.
+    symmetry. apply Zpow_facts.Zpower_mod. lia.
+  Qed.
+
   Lemma exp_concrete_path n e m s x y : y <> 0 -> y <> 1 ->
-    bv_exp n e m s (Cv x) (Cv y) = Ok (mk_int n (x ^ y)).
+    bv_exp n e m s (Cv x) (Cv y) = Ok (mk_int n (r_exp_1 x y n)).
   Proof.
     intros H0 H1. unfold bv_exp, g_exp_1, g_exp_2.
     destruct (Z.eqb_spec y 0); [contradiction|]. destruct (Z.eqb_spec y 1); [contradiction|]. reflexivity.
@@ -930,7 +969,9 @@ Section WithEnv.
     destruct (Z.eqb_spec y 1) as [->|Hy1].
     { eexists; split; [reflexivity|]. rewrite Z.pow_1_r. symmetry; apply Z.mod_small; assumption. }
     destruct a as [x|t].
-    - eexists; split; [reflexivity|]. apply mk_int_den; lia.
+    - unfold rd_exp_1, r_exp_1. rewrite py_arith_ok by reflexivity.
+      eexists; split; [reflexivity|]. rewrite mk_int_den by lia. rewrite Z.shiftl_1_l.
+      rewrite py_pow3_spec by lia. cbn [bv_den]. apply Z.mod_mod; lia.
     - destruct (g_exp_3 y sebc); (eexists; split; [reflexivity|]); [|exact Hslow].
       rewrite exp_loop_den by assumption. rewrite Z2Nat.id by lia.
       replace (den (Sv t) ^ (y - 1) * den (Sv t)) with (den (Sv t) ^ y); [reflexivity|].
@@ -954,18 +995,15 @@ Section WithEnv.
     unfold bvwf in Ha. assert (2 ^ n <= 2 ^ n2) by (apply Z.pow_le_mono_r; lia). lia.
   Qed.
 
-  Definition all_con_zero (a b m : bv) : bool :=
-    match a, b, m with Cv _, Cv _, Cv z => z =? 0 | _, _, _ => false end.
-
   Lemma bv_addmod_den n a b m : 0 < n -> wfn n a -> wfn n b -> wfn n m ->
-    all_con_zero a b m = false ->
     exists r, bv_addmod n true a b m = Ok r /\
       den r = if den m =? 0 then 0 else (den a + den b) mod den m.
   Proof.
-    intros Hn Ha Hb Hm Hz. pose proof (pow2_pos n ltac:(lia)) as HP.
-    assert (Hgen : den (bv_resize (n + 8) n
-              (bv_mod (n + 8) true (bv_add (n + 8) (bv_resize n (n + 8) a) (bv_resize n (n + 8) b))
-                 (bv_resize n (n + 8) m))) = if den m =? 0 then 0 else (den a + den b) mod den m).
+    intros Hn Ha Hb Hm. pose proof (pow2_pos n ltac:(lia)) as HP.
+    assert (Hgen : exists r,
+              bind_bv (bv_mod (n + 8) true (bv_add (n + 8) (bv_resize n (n + 8) a) (bv_resize n (n + 8) b))
+                         (bv_resize n (n + 8) m)) (bv_resize (n + 8) n) = Ok r /\
+              den r = if den m =? 0 then 0 else (den a + den b) mod den m).
     { pose proof (resize_up_wf n (n + 8) a ltac:(lia) ltac:(lia) Ha) as Wa.
       pose proof (resize_up_wf n (n + 8) b ltac:(lia) ltac:(lia) Hb) as Wb.
       pose proof (resize_up_wf n (n + 8) m ltac:(lia) ltac:(lia) Hm) as Wm.
@@ -975,29 +1013,32 @@ Section WithEnv.
       assert (D1 : den (bv_add (n + 8) (bv_resize n (n + 8) a) (bv_resize n (n + 8) b)) = den a + den b).
       { rewrite bv_add_den by (assumption || lia). rewrite !resize_up_den by (assumption || lia).
         unfold bvwf in Ha, Hb. apply Z.mod_small. lia. }
-      assert (D2 : den (bv_mod (n + 8) true (bv_add (n + 8) (bv_resize n (n + 8) a) (bv_resize n (n + 8) b))
-                 (bv_resize n (n + 8) m)) = if den m =? 0 then 0 else (den a + den b) mod den m).
-      { rewrite bv_mod_den by (assumption || lia). rewrite D1, resize_up_den by (assumption || lia). reflexivity. }
+      destruct (bv_mod_den (n + 8) (bv_add (n + 8) (bv_resize n (n + 8) a) (bv_resize n (n + 8) b))
+                  (bv_resize n (n + 8) m)) as [r2 [E2 D2]]; try (assumption || lia).
+      rewrite E2. cbn [bind_bv]. eexists; split; [reflexivity|].
+      rewrite D1, resize_up_den in D2 by (assumption || lia).
       rewrite resize_down_den; [exact D2|lia|lia|].
       rewrite D2. unfold bvwf in Hm. destruct (Z.eqb_spec (den m) 0); [lia|].
       pose proof (Z.mod_pos_bound (den a + den b) (den m) ltac:(lia)). lia. }
-    destruct a as [x|t], b as [y|u], m as [z|v];
-      try (eexists; split; [reflexivity|exact Hgen]).
-    cbn [all_con_zero] in Hz. cbn [bv_addmod]. rewrite Hz.
-    eexists; split; [reflexivity|]. unfold bvwf in *; cbn [bv_den] in *. rewrite Hz.
-    rewrite mk_int_den by lia. apply Z.mod_small.
-    pose proof (Z.mod_pos_bound (x + y) z ltac:(lia)). lia.
+    destruct a as [x|t], b as [y|u], m as [z|v]; try exact Hgen.
+    clear Hgen. cbn [bv_addmod]. unfold g_addmod_1. unfold bvwf in *; cbn [bv_den] in *.
+    destruct (Z.eqb_spec z 0) as [->|Hz].
+    - eexists; split; [reflexivity|]. rewrite mk_int_den by lia. apply Z.mod_0_l; lia.
+    - unfold rd_addmod_1, r_addmod_1.
+      rewrite py_arith_ok by (cbn [existsb]; destruct (Z.eqb_spec 0 z); [lia|reflexivity]).
+      eexists; split; [reflexivity|]. rewrite mk_int_den by lia. apply Z.mod_small.
+      pose proof (Z.mod_pos_bound (x + y) z ltac:(lia)). lia.
   Qed.
 
   Lemma bv_mulmod_den n a b m : 0 < n -> wfn n a -> wfn n b -> wfn n m ->
-    all_con_zero a b m = false ->
     exists r, bv_mulmod n true true a b m = Ok r /\
       den r = if den m =? 0 then 0 else (den a * den b) mod den m.
   Proof.
-    intros Hn Ha Hb Hm Hz. pose proof (pow2_pos n ltac:(lia)) as HP.
-    assert (Hgen : den (bv_resize (n * 2) n
-              (bv_mod (n * 2) true (bv_mul (n * 2) true (bv_resize n (n * 2) a) (bv_resize n (n * 2) b))
-                 (bv_resize n (n * 2) m))) = if den m =? 0 then 0 else (den a * den b) mod den m).
+    intros Hn Ha Hb Hm. pose proof (pow2_pos n ltac:(lia)) as HP.
+    assert (Hgen : exists r,
+              bind_bv (bv_mod (n * 2) true (bv_mul (n * 2) true (bv_resize n (n * 2) a) (bv_resize n (n * 2) b))
+                         (bv_resize n (n * 2) m)) (bv_resize (n * 2) n) = Ok r /\
+              den r = if den m =? 0 then 0 else (den a * den b) mod den m).
     { pose proof (resize_up_wf n (n * 2) a ltac:(lia) ltac:(lia) Ha) as Wa.
       pose proof (resize_up_wf n (n * 2) b ltac:(lia) ltac:(lia) Hb) as Wb.
       pose proof (resize_up_wf n (n * 2) m ltac:(lia) ltac:(lia) Hm) as Wm.
@@ -1008,45 +1049,37 @@ Section WithEnv.
       assert (D1 : den (bv_mul (n * 2) true (bv_resize n (n * 2) a) (bv_resize n (n * 2) b)) = den a * den b).
       { rewrite bv_mul_den by (assumption || lia). rewrite !resize_up_den by (assumption || lia).
         unfold bvwf in Ha, Hb. apply Z.mod_small. rewrite H2. nia. }
-      assert (D2 : den (bv_mod (n * 2) true (bv_mul (n * 2) true (bv_resize n (n * 2) a) (bv_resize n (n * 2) b))
-                 (bv_resize n (n * 2) m)) = if den m =? 0 then 0 else (den a * den b) mod den m).
-      { rewrite bv_mod_den by (assumption || lia). rewrite D1, resize_up_den by (assumption || lia). reflexivity. }
+      destruct (bv_mod_den (n * 2) (bv_mul (n * 2) true (bv_resize n (n * 2) a) (bv_resize n (n * 2) b))
+                  (bv_resize n (n * 2) m)) as [r2 [E2 D2]]; try (assumption || lia).
+      rewrite E2. cbn [bind_bv]. eexists; split; [reflexivity|].
+      rewrite D1, resize_up_den in D2 by (assumption || lia).
       rewrite resize_down_den; [exact D2|lia|lia|].
       rewrite D2. unfold bvwf in Hm. destruct (Z.eqb_spec (den m) 0); [lia|].
       pose proof (Z.mod_pos_bound (den a * den b) (den m) ltac:(lia)). lia. }
-    destruct a as [x|t], b as [y|u], m as [z|v];
-      try (eexists; split; [reflexivity|exact Hgen]).
-    cbn [all_con_zero] in Hz. cbn [bv_mulmod]. rewrite Hz.
-    eexists; split; [reflexivity|]. unfold bvwf in *; cbn [bv_den] in *. rewrite Hz.
-    rewrite mk_int_den by lia. apply Z.mod_small.
-    pose proof (Z.mod_pos_bound (x * y) z ltac:(lia)). lia.
+    destruct a as [x|t], b as [y|u], m as [z|v]; try exact Hgen.
+    clear Hgen. cbn [bv_mulmod]. unfold g_mulmod_1. unfold bvwf in *; cbn [bv_den] in *.
+    destruct (Z.eqb_spec z 0) as [->|Hz].
+    - eexists; split; [reflexivity|]. rewrite mk_int_den by lia. apply Z.mod_0_l; lia.
+    - unfold rd_mulmod_1, r_mulmod_1.
+      rewrite py_arith_ok by (cbn [existsb]; destruct (Z.eqb_spec 0 z); [lia|reflexivity]).
+      eexists; split; [reflexivity|]. rewrite mk_int_den by lia. apply Z.mod_small.
+      pose proof (Z.mod_pos_bound (x * y) z ltac:(lia)). lia.
   Qed.
 
   Lemma run_addmod a b c : wf ev eb a -> wf ev eb b -> wf ev eb c ->
-    all_con_zero (popi a) (popi b) (popi c) = false ->
     exists r, run3 ADDMOD a b c = Ok r /\ dn r = evm_addmod (dn a) (dn b) (dn c).
   Proof.
-    intros Ha Hb Hc Hz. cbn [run3].
+    intros Ha Hb Hc. cbn [run3].
     destruct (bv_addmod_den 256 (popi a) (popi b) (popi c)) as [r [E D]]; try side.
     rewrite E. eexists; split; [reflexivity|]. cbn [denote]. rewrite D, !popi_den. reflexivity.
   Qed.
 
   Lemma run_mulmod a b c : wf ev eb a -> wf ev eb b -> wf ev eb c ->
-    all_con_zero (popi a) (popi b) (popi c) = false ->
     exists r, run3 MULMOD a b c = Ok r /\ dn r = evm_mulmod (dn a) (dn b) (dn c).
   Proof.
-    intros Ha Hb Hc Hz. cbn [run3].
+    intros Ha Hb Hc. cbn [run3].
     destruct (bv_mulmod_den 256 (popi a) (popi b) (popi c)) as [r [E D]]; try side.
     rewrite E. eexists; split; [reflexivity|]. cbn [denote]. rewrite D, !popi_den. reflexivity.
-  Qed.
-
-  Lemma run_modzero_crash o a b c : all_con_zero (popi a) (popi b) (popi c) = true ->
-    run3 o a b c = Err EZeroDivision.
-  Proof.
-    intros Hz. unfold all_con_zero in Hz.
-    destruct (popi a) as [x|] eqn:Ea; [|discriminate]. destruct (popi b) as [y|] eqn:Eb; [|discriminate].
-    destruct (popi c) as [z|] eqn:Ec; [|discriminate].
-    destruct o; cbn [run3]; rewrite Ea, Eb, Ec; cbn [bv_addmod bv_mulmod]; rewrite Hz; reflexivity.
   Qed.
 
   (* ================================================================ SEVM.arith path constraints *)
@@ -1056,15 +1089,15 @@ Section WithEnv.
     intros Ha Hb Hin.
     pose proof (popi_wf a Ha) as Wa. pose proof (popi_wf b Hb) as Wb.
     destruct o; cbn [arith_axioms] in Hin; try contradiction.
-    - pose proof (bv_div_den 256 (popi a) (popi b) ltac:(lia) Wa Wb) as D.
-      destruct (bv_div 256 true (popi a) (popi b)) as [v|t]; [contradiction|].
+    - destruct (bv_div_den 256 (popi a) (popi b) ltac:(lia) Wa Wb) as [r [E D]].
+      rewrite E in Hin. destruct r as [v|t]; [contradiction|].
       destruct Hin as [<-|[]].
       change (bvule (eval ev eb t) (eval ev eb (z3_of 256 (popi a))) = true).
       rewrite z3_of_den by assumption. cbn [bv_den] in D. rewrite D. unfold bvule. apply Z.leb_le.
       unfold bvwf in Wa, Wb. destruct (Z.eqb_spec (den (popi b)) 0); [lia|].
       pose proof (div_range (den (popi a)) (den (popi b)) (den (popi a) + 1) ltac:(lia) ltac:(lia)). lia.
-    - pose proof (bv_mod_den 256 (popi a) (popi b) ltac:(lia) Wa Wb) as D.
-      destruct (bv_mod 256 true (popi a) (popi b)) as [v|t]; [contradiction|].
+    - destruct (bv_mod_den 256 (popi a) (popi b) ltac:(lia) Wa Wb) as [r [E D]].
+      rewrite E in Hin. destruct r as [v|t]; [contradiction|].
       destruct Hin as [<-|[]].
       change (bvule (eval ev eb t) (eval ev eb (z3_of 256 (popi b))) = true).
       rewrite z3_of_den by assumption. cbn [bv_den] in D. rewrite D. unfold bvule. apply Z.leb_le.
@@ -1165,94 +1198,81 @@ Section WithEnv.
     run3 o a b c = Ok r -> run3 o a' b' c' = Ok r' -> dn r = dn r'.
   Proof.
     intros Ha Hb Hc Ha' Hb' Hc' Ea Eb Ec E E'.
-    assert (Z1 : all_con_zero (popi a) (popi b) (popi c) = false).
-    { destruct (all_con_zero (popi a) (popi b) (popi c)) eqn:Z; [|reflexivity].
-      rewrite (run_modzero_crash o a b c Z) in E. discriminate. }
-    assert (Z2 : all_con_zero (popi a') (popi b') (popi c') = false).
-    { destruct (all_con_zero (popi a') (popi b') (popi c')) eqn:Z; [|reflexivity].
-      rewrite (run_modzero_crash o a' b' c' Z) in E'. discriminate. }
     destruct o.
-    - destruct (run_addmod a b c Ha Hb Hc Z1) as [s [F D]]. rewrite F in E; injection E as <-.
-      destruct (run_addmod a' b' c' Ha' Hb' Hc' Z2) as [s' [F' D']]. rewrite F' in E'; injection E' as <-.
+    - destruct (run_addmod a b c Ha Hb Hc) as [s [F D]]. rewrite F in E; injection E as <-.
+      destruct (run_addmod a' b' c' Ha' Hb' Hc') as [s' [F' D']]. rewrite F' in E'; injection E' as <-.
       rewrite D, D', Ea, Eb, Ec. reflexivity.
-    - destruct (run_mulmod a b c Ha Hb Hc Z1) as [s [F D]]. rewrite F in E; injection E as <-.
-      destruct (run_mulmod a' b' c' Ha' Hb' Hc' Z2) as [s' [F' D']]. rewrite F' in E'; injection E' as <-.
+    - destruct (run_mulmod a b c Ha Hb Hc) as [s [F D]]. rewrite F in E; injection E as <-.
+      destruct (run_mulmod a' b' c' Ha' Hb' Hc') as [s' [F' D']]. rewrite F' in E'; injection E' as <-.
       rewrite D, D', Ea, Eb, Ec. reflexivity.
+  Qed.
+
+  Lemma run3_total o a b c : wf ev eb a -> wf ev eb b -> wf ev eb c ->
+    exists r, run3 o a b c = Ok r.
+  Proof.
+    intros Ha Hb Hc. destruct o.
+    - destruct (run_addmod a b c Ha Hb Hc) as [r [E _]]; eauto.
+    - destruct (run_mulmod a b c Ha Hb Hc) as [r [E _]]; eauto.
   Qed.
 
 End WithEnv.
 
-(* ================================================================ defects of the current tree *)
-
-(* F1: NOT on a Bool-typed stack top is logical negation *)
-Lemma not_bool_wrong : forall ev eb p,
-  run1 NOT (VBool p) = Ok (VBool (bl_not p)) /\
-  denote ev eb (VBool (bl_not p)) = b2w (negb (bl_den ev eb p)) /\
-  evm_not (denote ev eb (VBool p)) = W - 1 - b2w (bl_den ev eb p).
+(* ================================================================ promptness of the concrete paths *)
+(* every concrete-path return expression regenerated from bitvec.py is evaluated on integers of
+   at most about twice the word size: nothing like the unreduced lhs ** rhs is materialised *)
+Lemma py_bits_bound n v : 0 < n -> 0 <= v < 2 ^ n -> 1 <= py_bits v <= n.
 Proof.
-  intros ev eb p. split; [reflexivity|]. split; [|reflexivity].
-  cbn [denote]. unfold bl_not. rewrite bl_is_zero_den. reflexivity.
+  intros Hn Hv. unfold py_bits. rewrite Z.abs_eq by lia.
+  destruct (Z.eq_dec v 0) as [->|Hne]; [cbn; lia|].
+  pose proof (Z.log2_nonneg v). assert (Z.log2 v < n) by (apply Z.log2_lt_pow2; lia). lia.
 Qed.
 
-Lemma not_refuted :
-  ~ (forall ev eb a, wf ev eb a ->
-       exists r, run1 NOT a = Ok r /\ denote ev eb r = evm_not (denote ev eb a)).
+Lemma py_bits_size n : 0 < n -> 1 <= py_bits n <= n.
 Proof.
-  intros H. destruct (H (fun _ => 0) (fun _ => false) (VBool (BC true)) I) as [r [E D]].
-  cbn in E. injection E as <-. vm_compute in D. discriminate.
+  intros Hn. apply py_bits_bound; [assumption|]. split; [lia|]. apply Z.pow_gt_lin_r; lia.
 Qed.
 
-(* F15: all-concrete ADDMOD / MULMOD with modulus zero *)
-Lemma modzero_refuted : forall o,
-  ~ (forall ev eb a b c, wf ev eb a -> wf ev eb b -> wf ev eb c -> exists r, run3 o a b c = Ok r).
+Lemma exp_prompt n x y : 0 < n -> 0 <= x < 2 ^ n -> 0 <= y < 2 ^ n ->
+  exp_work n (Cv x) (Cv y) <= 2 * n + 2.
 Proof.
-  intros o H.
-  assert (W0 : forall v, 0 <= v < 2 ^ 256 -> wf (fun _ => 0) (fun _ => false) (VBV (Cv v))) by (intros v Hv; exact Hv).
-  destruct (H (fun _ => 0) (fun _ => false) (VBV (Cv 5)) (VBV (Cv 6)) (VBV (Cv 0))) as [r E];
-    try (apply W0; split; [lia|reflexivity]).
-  destruct o; discriminate E.
+  intros Hn Hx Hy. unfold exp_work. destruct (g_exp_1 y || g_exp_2 y); [lia|].
+  unfold rw_exp_1.
+  pose proof (py_bits_bound n x Hn Hx). pose proof (py_bits_bound n y Hn Hy). pose proof (py_bits_size n Hn).
+  lia.
 Qed.
 
-(* F2: concrete EXP materialises the unreduced power *)
-Lemma log2_pow_lower x y : 1 < x -> 0 <= y -> y * Z.log2 x <= Z.log2 (x ^ y).
+Lemma conc_work_bounded n x y z k : 0 < n ->
+  0 <= x < 2 ^ n -> 0 <= y < 2 ^ n -> 0 <= z < 2 ^ n -> 0 <= k < 2 ^ n -> g_lshl_2 k n = false ->
+  rw_add_1 y x <= n + 1 /\ rw_sub_1 y x <= n + 1 /\ rw_mul_1 x y <= 2 * n /\
+  rw_div_1 x y <= n /\ rw_mod_1 x y <= n /\ rw_exp_1 x y n <= 2 * n + 2 /\
+  rw_addmod_1 z y x <= n + 1 /\ rw_mulmod_1 z y x <= 2 * n /\
+  rw_lshl_1 x k <= 2 * n /\ rw_lshr_1 x y <= n /\ rw_bitwise_not_1 n x <= n + 2 /\
+  rw_bitwise_and_1 y x <= n /\ rw_bitwise_or_1 y x <= n /\ rw_bitwise_xor_1 y x <= n.
 Proof.
-  intros Hx Hy. pose proof (Z.log2_nonneg x) as Hl.
-  pose proof (Z.log2_spec x ltac:(lia)) as [Hlo _].
-  assert (H : (2 ^ Z.log2 x) ^ y <= x ^ y).
-  { apply Z.pow_le_mono_l. split; [apply Z.lt_le_incl, pow2_pos; assumption|assumption]. }
-  rewrite <- Z.pow_mul_r in H by lia.
-  apply Z.log2_le_mono in H. rewrite Z.log2_pow2 in H by nia. lia.
+  intros Hn Hx Hy Hz Hk Hg. unfold g_lshl_2 in Hg.
+  pose proof (py_bits_bound n x Hn Hx). pose proof (py_bits_bound n y Hn Hy).
+  pose proof (py_bits_bound n z Hn Hz). pose proof (py_bits_bound n k Hn Hk). pose proof (py_bits_size n Hn).
+  unfold rw_add_1, rw_sub_1, rw_mul_1, rw_div_1, rw_mod_1, rw_exp_1, rw_addmod_1, rw_mulmod_1,
+    rw_lshl_1, rw_lshr_1, rw_bitwise_not_1, rw_bitwise_and_1, rw_bitwise_or_1, rw_bitwise_xor_1.
+  repeat split; lia.
 Qed.
 
-Lemma exp_not_prompt :
-  exists a e, 0 <= a < 2 ^ 256 /\ 0 <= e < 2 ^ 256 /\
-    bv_exp 256 true true 2 (Cv a) (Cv e) = Ok (mk_int 256 (a ^ e)) /\
-    2 ^ 64 <= Z.log2 (a ^ e).
-Proof.
-  exists 2, (2 ^ 64). split; [split; [lia|reflexivity]|]. split; [split; [lia|reflexivity]|].
-  split.
-  - apply exp_concrete_path; intros H; discriminate H.
-  - pose proof (log2_pow_lower 2 (2 ^ 64) ltac:(lia) ltac:(lia)) as H.
-    change (Z.log2 2) with 1 in H. rewrite Z.mul_1_r in H. exact H.
-Qed.
-
-Lemma exp_work_lower x y : 1 < x -> 1 < y ->
-  exp_work (Cv x) (Cv y) = y * Z.log2 x /\ exp_work (Cv x) (Cv y) <= Z.log2 (x ^ y).
-Proof.
-  intros Hx Hy. unfold exp_work.
-  destruct (Z.leb_spec y 1); [lia|]. destruct (Z.leb_spec x 1); [lia|]. cbn [orb].
-  split; [reflexivity|apply log2_pow_lower; lia].
-Qed.
+(* the concrete-path expressions without `//` / `%` have no divisor at all *)
+Lemma conc_no_divisors n x y k :
+  rd_add_1 y x = [] /\ rd_sub_1 y x = [] /\ rd_mul_1 x y = [] /\ rd_exp_1 x y n = [] /\ rd_lshl_1 x k = [] /\
+  rd_lshr_1 x k = [] /\ rd_bitwise_not_1 n x = [] /\ rd_bitwise_and_1 y x = [] /\ rd_bitwise_or_1 y x = [] /\
+  rd_bitwise_xor_1 y x = [].
+Proof. repeat split; reflexivity. Qed.
 
 (* latent: with abstraction=None (never used by sevm.py) a symbolic zero divisor gives the
    SMT-LIB value 2^n - 1, and sdiv raises TypeError *)
 Lemma div_noabs_latent :
-  exists ev eb a b, bvwf ev eb 256 a /\ bvwf ev eb 256 b /\
-    bv_den ev eb (bv_div 256 false a b) <> evm_div (bv_den ev eb a) (bv_den ev eb b).
+  exists ev eb a b r, bvwf ev eb 256 a /\ bvwf ev eb 256 b /\ bv_div 256 false a b = Ok r /\
+    bv_den ev eb r <> evm_div (bv_den ev eb a) (bv_den ev eb b).
 Proof.
   exists (fun id => if id =? 0 then 7 else 0), (fun _ => false), (Sv (TVar 0)), (Sv (TVar 1)).
-  split; [split; [cbn; lia|reflexivity]|]. split; [split; [cbn; lia|reflexivity]|].
-  vm_compute. discriminate.
+  eexists. split; [split; [cbn; lia|reflexivity]|]. split; [split; [cbn; lia|reflexivity]|].
+  split; [reflexivity|]. vm_compute. discriminate.
 Qed.
 
 Lemma sdiv_noabs_latent : forall n t u, bv_sdiv n false (Sv t) (Sv u) = Err ETypeError.
@@ -1350,42 +1370,53 @@ Lemma P_ISZERO ev eb a : in_word (denote ev eb a) ->
   exists r, run1 ISZERO a = Ok r /\ denote ev eb r = evm_iszero (denote ev eb a).
 Proof. intros Ha. apply run_iszero; apply wf_iw; assumption. Qed.
 
-Lemma P_NOT_bv ev eb x : in_word (bv_den ev eb x) ->
-  exists r, run1 NOT (VBV x) = Ok r /\ denote ev eb r = evm_not (bv_den ev eb x).
-Proof. intros Hx. apply run_not_bv. exact Hx. Qed.
-
-Lemma P_NOT_refuted :
-  ~ (forall ev eb a, in_word (denote ev eb a) ->
-       exists r, run1 NOT a = Ok r /\ denote ev eb r = evm_not (denote ev eb a)).
+Lemma iw_bool ev eb v : wf ev eb v -> in_word (denote ev eb v).
 Proof.
-  intros H. apply not_refuted. intros ev eb a Ha. apply (H ev eb a).
-  destruct a as [x|p]; cbn [wf denote] in *; [exact Ha|]. destruct (bl_den ev eb p); split; try reflexivity; cbn; lia.
+  destruct v as [x|p]; cbn [wf denote]; intros Hv; [exact Hv|].
+  destruct (bl_den ev eb p); split; try reflexivity; cbn; lia.
 Qed.
+
+Lemma P_NOT ev eb a : in_word (denote ev eb a) ->
+  exists r, run1 NOT a = Ok r /\ denote ev eb r = evm_not (denote ev eb a).
+Proof. intros Ha. apply run_not; apply wf_iw; assumption. Qed.
+
+Lemma P_NOT_bool ev eb p :
+  exists r, run1 NOT (VBool p) = Ok r /\ denote ev eb r = W - 1 - b2w (bl_den ev eb p).
+Proof. apply (run_not ev eb (VBool p)). exact I. Qed.
 
 Lemma P_ADDMOD ev eb a b c : in_word (denote ev eb a) -> in_word (denote ev eb b) -> in_word (denote ev eb c) ->
-  (match popi a, popi b, popi c with Cv _, Cv _, Cv z => z =? 0 | _, _, _ => false end) = false ->
   exists r, run3 ADDMOD a b c = Ok r /\ denote ev eb r = evm_addmod (denote ev eb a) (denote ev eb b) (denote ev eb c).
-Proof. intros Ha Hb Hc Hz. apply run_addmod; try apply wf_iw; assumption. Qed.
+Proof. intros Ha Hb Hc. apply run_addmod; apply wf_iw; assumption. Qed.
 
 Lemma P_MULMOD ev eb a b c : in_word (denote ev eb a) -> in_word (denote ev eb b) -> in_word (denote ev eb c) ->
-  (match popi a, popi b, popi c with Cv _, Cv _, Cv z => z =? 0 | _, _, _ => false end) = false ->
   exists r, run3 MULMOD a b c = Ok r /\ denote ev eb r = evm_mulmod (denote ev eb a) (denote ev eb b) (denote ev eb c).
-Proof. intros Ha Hb Hc Hz. apply run_mulmod; try apply wf_iw; assumption. Qed.
+Proof. intros Ha Hb Hc. apply run_mulmod; apply wf_iw; assumption. Qed.
 
-Lemma P_modzero_crash o a b c :
-  (match popi a, popi b, popi c with Cv _, Cv _, Cv z => z =? 0 | _, _, _ => false end) = true ->
-  run3 o a b c = Err EZeroDivision.
-Proof. exact (run_modzero_crash o a b c). Qed.
+Lemma P_total3 ev eb o a b c : in_word (denote ev eb a) -> in_word (denote ev eb b) -> in_word (denote ev eb c) ->
+  exists r, run3 o a b c = Ok r.
+Proof. intros Ha Hb Hc. apply (run3_total ev eb); apply wf_iw; assumption. Qed.
 
-Lemma P_modzero_refuted : forall o,
-  ~ (forall ev eb a b c, in_word (denote ev eb a) -> in_word (denote ev eb b) -> in_word (denote ev eb c) ->
-       exists r, run3 o a b c = Ok r).
+Lemma P_total1 ev eb o a : in_word (denote ev eb a) -> exists r, run1 o a = Ok r.
 Proof.
-  intros o H. apply (modzero_refuted o). intros ev eb a b c Ha Hb Hc.
-  assert (IW : forall v, wf ev eb v -> in_word (denote ev eb v)).
-  { intros [x|p] Hv; cbn [wf denote] in *; [exact Hv|]. destruct (bl_den ev eb p); split; try reflexivity; cbn; lia. }
-  apply (H ev eb a b c); apply IW; assumption.
+  intros Ha. destruct o.
+  - destruct (run_iszero ev eb a (wf_iw ev eb a Ha)) as [r [E _]]; eauto.
+  - destruct (run_not ev eb a (wf_iw ev eb a Ha)) as [r [E _]]; eauto.
 Qed.
+
+Lemma P_prompt_EXP a e : 0 <= a < 2 ^ 256 -> 0 <= e < 2 ^ 256 ->
+  exp_work 256 (Cv a) (Cv e) <= 514 /\
+  exists r, bv_exp 256 true true 2 (Cv a) (Cv e) = Ok r /\
+    bv_den (fun _ => 0) (fun _ => false) r = (a ^ e) mod 2 ^ 256.
+Proof.
+  intros Ha He. split.
+  - exact (exp_prompt 256 a e ltac:(reflexivity) Ha He).
+  - exact (bv_exp_den (fun _ => 0) (fun _ => false) 256 2 (Cv a) (Cv e) ltac:(reflexivity) Ha He).
+Qed.
+
+(* all-concrete ADDMOD / MULMOD with modulus 0: answered by the `modulus.value == 0` guard *)
+Lemma P_modzero o a b c x y : popi a = Cv x -> popi b = Cv y -> popi c = Cv 0 ->
+  run3 o a b c = Ok (VBV (Cv 0)).
+Proof. intros Ea Eb Ec. destruct o; cbn [run3]; rewrite Ea, Eb, Ec; reflexivity. Qed.
 
 Lemma P_total ev eb sebc o a b : in_word (denote ev eb a) -> in_word (denote ev eb b) ->
   (o = SIGNEXTEND -> exists s, popi a = Cv s) ->
